@@ -80,8 +80,10 @@ def make_ops(rng, cfg, profile, tier):
             ops.append({'op': 'OP', 'a': [rng.randrange(1 << 16), rng.choice([1, 1, 2, 3, 4, 5, 7])]})
         elif r < 0.6:
             ops.append({'op': 'INC_DEC', 'a': [rng.randrange(64), rng.choice([1, 2, 3, 4, 5, 9]), rng.random() < 0.5]})
-        elif r < 0.68:
+        elif r < 0.64:
             ops.append({'op': 'ITERATE', 'a': []})
+        elif r < 0.68:
+            ops.append({'op': 'ITERATE_SELECTED', 'a': [rng.randrange(1 << 30), rng.randrange(1, 5)]})
         elif r < 0.76:
             ops.append({'op': 'FROM_STRING', 'a': [rng.randrange(1 << 30), rng.randrange(1 << 30)]})
         elif r < 0.92:
@@ -439,6 +441,26 @@ class Session:
             self.check_state(kind)
             # the visiting order is the iteration order of a set (hash dependent): continue from a
             # canonical configuration so that the rest of the session does not depend on it
+            first = min(seen)
+            self.expr.configure_catalogs(Configuration.from_string(first))
+            self.model = {t.split(':')[0]: self.member_names[t.split(':')[0]].index(t.split(':')[1])
+                          for t in first.split(';')}
+            ctx.log(kind, len(seen))
+        elif kind == 'ITERATE_SELECTED':
+            from biogeme.expressions import SelectedExpressionsIterator
+            rng = random.Random(a[0])
+            allc = sorted(self.product_ids())
+            chosen = rng.sample(allc, min(a[1], len(allc)))
+            confs = {Configuration.from_string(c) for c in chosen}
+            seen = []
+            for e in SelectedExpressionsIterator(self.expr, confs):
+                cid = e.current_configuration().get_string_id()
+                seen.append(cid)
+                model = {t.split(':')[0]: self.member_names[t.split(':')[0]].index(t.split(':')[1]) for t in cid.split(';')}
+                self.model = model
+                self.check_state(kind)
+            if sorted(seen) != sorted(chosen):
+                ctx.fail('I16.iterate', f'iteration over {len(chosen)} selected configurations visited {seen}')
             first = min(seen)
             self.expr.configure_catalogs(Configuration.from_string(first))
             self.model = {t.split(':')[0]: self.member_names[t.split(':')[0]].index(t.split(':')[1])
